@@ -92,8 +92,8 @@ def correspond(ctx):
         cases.append(cc.gen_prog(ctx.rng, size, demand=ctx.rng.random() < 0.5, wf=ctx.rng.random() < 0.6,
                                  invalid=0.25 if k % 7 == 0 else 0.0))
     # boundaries: a few definitions with hundreds of units and constants in every tier
-    for size in ctx.n((70, 110), (150, 260)):
-        cases.append(cc.gen_prog(ctx.rng, size, demand=False, wf=True))
+    for k_, size in enumerate(ctx.n((70, 110), (150, 260))):
+        cases.insert(0 if k_ == 0 else len(cases), cc.gen_prog(ctx.rng, size, demand=False, wf=True))
     res = ctx.impl('c01_build', {'cases': cases}, timeout=900)
     out = res['out']
     for p_, d_ in zip(cases, out):
@@ -108,7 +108,8 @@ def correspond(ctx):
     hdr = cc.HEADER + 'Require Import SC3.model.GraphSem.\n'
     items = ['(%s, %s)' % (cc.cprog(p), cc.cresult(d)) for p, d in zip(cases, out)]
     body = 'Eval vm_compute in bad_idx (fun c => result_matches (compile_flag T dce_strict dce_guard sub_guard (fst c)) (snd c)) cases.'
-    bad, errs = fw.check_shards(ctx, 'c01', hdr, items, body, shard=60)
+    # deadline per call: generous in the thorough tier (the machine may be shared with other jobs)
+    bad, errs = fw.check_shards(ctx, 'c01', hdr, items, body, shard=ctx.n(60, 40), timeout=ctx.n(900, 3000))
     body2 = 'Eval vm_compute in bad_idx (fun c => sem_test T dce_strict dce_guard sub_guard (fst c)) cases.'
     # the executable semantic test computes exact rationals under two irregular interpretations (squares,
     # products): nested operator chains make the numerators grow doubly exponentially, so it is run on the
@@ -116,7 +117,7 @@ def correspond(ctx):
     sem_idx = [i for i, pr in enumerate(cases) if _value_bits(pr) <= SEM_BITS]
     c.count('sem-test-run', len(sem_idx))
     c.count('sem-test-skipped-large-values', len(cases) - len(sem_idx))
-    bad2_local, errs2 = fw.check_shards(ctx, 'c01sem', hdr, [items[i] for i in sem_idx], body2, shard=60)
+    bad2_local, errs2 = fw.check_shards(ctx, 'c01sem', hdr, [items[i] for i in sem_idx], body2, shard=ctx.n(60, 40), timeout=ctx.n(900, 3000))
     bad2 = [sem_idx[j] for j in bad2_local]
     for e in (errs + errs2)[:3]:
         c.failures.append(Failure('correspondence', 'coq evaluation of the graph model failed: ' + e))
